@@ -69,3 +69,11 @@ C("mako.ast:PythonCode.__init__",
   raises={"*": {"ensures": [("the-parser-is-told-how-many-lines-precede-the-code", "implies(G.parse_calls == old(G.parse_calls) + 1, G.parse_offset == lineno_offset + %s)" % _LEAD)]}},
   props=["C11"], native_skip=True,
   note="verified for string code (the parse-tree path); an already parsed AST is passed through")
+
+# what callers see of the exception constructors (they pass the position either positionally or as **exception_kwargs)
+from vrf.pyvc.spec import VIEWS
+for _cls in ("CompileException", "SyntaxException"):
+    VIEWS["mako.exceptions:%s.__init__" % _cls] = ASSUME(
+        "mako.exceptions:%s.__init__@callers" % _cls, params={"self": _cls, "message": "Any", "*args": "Star", "**kw": "Star"},
+        modifies=["self.lineno", "self.pos", "self.filename", "self.source"])
+    CONTRACTS.pop("mako.exceptions:%s.__init__@callers" % _cls, None)
